@@ -80,7 +80,11 @@ def gen_ellipsoid(rng):
         return "IAU76", IAU76
     a = rng.choice((6378137.0, 1.0, rng.uniform(1e6, 1e7)))
     f = rng.choice((0.0, 0.01, rng.uniform(0.0, 0.01)))
-    return "user", Ellipsoid(a, f, rng.uniform(1e-5, 1e-4))
+    # (a body that does not rotate, or hardly, or the other way: the rate
+    # is the user's)
+    om = rng.choice((rng.uniform(1e-5, 1e-4), rng.uniform(1e-5, 1e-4), 0.0,
+                     1e-12, -7.292115e-5, 1.0))
+    return "user", Ellipsoid(a, f, om)
 
 
 def case_identities(mon, a, f, om, lat, h):
